@@ -98,6 +98,15 @@ func init() {
 				}
 				return
 			}
+			if (len(texts.Items())+len(conf))%3 == 1 {
+				// every third project has a history: the same request was carried out in this process before and the
+				// sources were then put back byte for byte (an undo, a `git checkout`); the request is judged on the tree
+				// as it stands now, whatever the process did earlier
+				rename.RenameMethodApp(deps).Refactoring(conf)
+				for _, f := range texts.Items() {
+					os.WriteFile(filepath.Join(dir, f.Nth(0).Str()), []byte(f.Nth(1).Str()), 0o644)
+				}
+			}
 			rename.RenameMethodApp(deps).Refactoring(conf)
 		}()
 		files := []Sx{}
